@@ -14,11 +14,13 @@ PLAN = dict(
     floor=dict(quick=450, thorough=13000),
     tiers=dict(
         quick=[det("rel", H, "cs-rel", 16, 200, 4, tso=True, time_cap=30),
-               det("dbg", H, "cs-dbg", 16, 80, 4, tso=True, time_cap=25)],
+               det("dbg", H, "cs-dbg", 16, 80, 4, tso=True, time_cap=25),
+               tsan("C07", 4, 80)],
         thorough=[det("rel", H, "cs-rel", 16, 2600, 5, tso=True, time_cap=300),
                   det("dbg", H, "cs-dbg", 16, 800, 5, tso=True, time_cap=200),
                   det("enum-conflict", H, "cs-rel", 16, 60, 2, tso=True, time_cap=120, enum="conflict", enum_cap=150),
-                  det("enum-rmw", H, "cs-rel", 16, 60, 2, tso=True, time_cap=120, enum="rmw", enum_cap=150)],
+                  det("enum-rmw", H, "cs-rel", 16, 60, 2, tso=True, time_cap=120, enum="rmw", enum_cap=150),
+               tsan("C07", 16, 600)],
     ),
 )
 TEXT = dict(
